@@ -191,9 +191,9 @@ package participle
 //@   ensures err == nil && out != nil ==> len(ctx.apply) > len(old(ctx.apply))
 //@   ensures @lastEntry len(ctx.apply) > len(old(ctx.apply)) ==> ctx.apply[len(ctx.apply)-1] != nil && ctx.apply[len(ctx.apply)-1].strct == parent
 //@   ensures @otherEntries forall(k, len(old(ctx.apply)), len(ctx.apply)-1, ctx.apply[k] != nil && ctx.apply[k].strct == parent)
-//@   before call (*parseContext).Defer#1: assert forall(k, len(old(ctx.apply)), len(ctx.apply), ctx.apply[k] != nil && ctx.apply[k].strct == parent)
-//@   before call (*parseContext).Defer#1: assert strct == parent && field == c.field && fieldValue == v && len(v) >= 0
-//@   before call (*parseContext).Defer#1: assert tokens == ctx.tokens[start:ctx.rawCursor] [C11 C01]
+//@   before call (*participle.parseContext).Defer#1: assert forall(k, len(old(ctx.apply)), len(ctx.apply), ctx.apply[k] != nil && ctx.apply[k].strct == parent)
+//@   before call (*participle.parseContext).Defer#1: assert strct == parent && field == c.field && fieldValue == v && len(v) >= 0
+//@   before call (*participle.parseContext).Defer#1: assert tokens == ctx.tokens[start:ctx.rawCursor] [C11 C01]
 
 // setField writes the captured values into the struct through reflection (C17); it does not touch the
 // parse context. Its own obligations are under "conform"/"setField" below.
@@ -547,9 +547,9 @@ package participle
 //@ global lexer.TextScannerLexer != nil
 //@ func Build [C01 C13 C18 C15]
 //@   requires forall(k, 0, len(options), options[k] != nil)
-//@   let la = p.useLookahead after call Definition.Symbols#1
-//@   let lx = p.lex after call Definition.Symbols#1
-//@   let nm = len(p.mappers) after call Definition.Symbols#1
+//@   let la int = p.useLookahead after call Definition.Symbols#1
+//@   let lx lexer.Definition = p.lex after call Definition.Symbols#1
+//@   let nm int = len(p.mappers) after call Definition.Symbols#1
 //@   ensures err == nil ==> parser != nil && parser.useLookahead == la
 //@   ensures err == nil && len(options) == 0 ==> parser.useLookahead == 1
 //@   ensures err == nil && nm == 0 ==> parser.lex == lx
@@ -646,10 +646,21 @@ package participle
 //@   ensures result1 == nil ==> result0 != nil && wfc(result0)
 //@   use wfcNegation(result0.(*negation)) at exit
 
-//@ func (*generatorContext).parseModifier [C19]
+// A modifier wraps its operand in a new group node and never alters the operand (whose own repetition
+// mode, for [ ] and { }, stays what it was): ! + * ? select the four modes, anything else leaves the
+// operand as it is (C01: the node graph means what the tag says).
+//@ func (*generatorContext).parseModifier [C19 C01]
 //@   requires slexer != nil && (expr != nil ==> wfc(expr))
+//@   let tk lexer.TokenType = result0.Type after call (*participle.structLexer).Peek#1
 //@   ensures result1 == nil && expr != nil ==> result0 != nil && wfc(result0)
 //@   ensures result1 == nil && expr == nil ==> result0 == nil
+//@   ensures result1 == nil && expr != nil && tk != '!' && tk != '+' && tk != '*' && tk != '?' ==> result0 == expr [C01]
+//@   ensures result1 == nil && expr != nil && (tk == '!' || tk == '+' || tk == '*' || tk == '?') ==> typeis(result0, *group) && fresh(result0.(*group)) && result0.(*group).expr == expr [C01]
+//@   ensures result1 == nil && expr != nil && tk == '!' ==> result0.(*group).mode == groupMatchNonEmpty [C01]
+//@   ensures result1 == nil && expr != nil && tk == '+' ==> result0.(*group).mode == groupMatchOneOrMore [C01]
+//@   ensures result1 == nil && expr != nil && tk == '*' ==> result0.(*group).mode == groupMatchZeroOrMore [C01]
+//@   ensures result1 == nil && expr != nil && tk == '?' ==> result0.(*group).mode == groupMatchZeroOrOne [C01]
+//@   modifies nothing
 //@   use wfcGroup(result0.(*group)) at exit
 
 //@ func (*generatorContext).parseTermNoModifiers [C19]
